@@ -1,12 +1,12 @@
 """C01 — pagination conserves content."""
-from harness import docs, pm, pm_corr
+from harness import docs, pm, pm_corr, wide_trace
 from vlib.framework import PropCheck
 
 
 class C01(PropCheck):
     id = 'C01'
     extractors = ()
-    modules = ('WpModel.Props.C01',)
+    modules = ('WpModel.Props.C01', 'WpModel.Props.C01Trace')
     trusted_base = (
         'modelled, not verified: block.py block_level_layout/block_container_layout/_in_flow_layout/_linebox_layout/'
         '_break_line/find_earlier_page_break, page.py make_page/remake_page/make_all_pages as lean/WpModel/Model/'
@@ -24,8 +24,30 @@ class C01(PropCheck):
             'widows/named pages/box-decoration-break), whole pagination compared exactly (page types, resume_at, '
             'next_page, every fragment and line with its geometry); non-trivial = at least 2 pages')
         pm_corr.add_cases(run, sec, run.n(250, 6000))
+        sec2 = run.section(
+            'wide-traces',
+            'documents of the wide grammar (nested blocks, inline markup, lists, tables with head/foot, multi-column, '
+            'flex, grid, floats, positioned boxes, footnotes, breaks, orphans/widows, pages down to one line) with '
+            'globally unique words: the per-page word sequence of the real render is checked by the verified Lean '
+            'checker (each rendered word once, per-container order, cross-container order of sequential flows, '
+            'display:none absent, fragments on consecutive pages); the implementation side of the comparison is the '
+            'constant claim "ok"; non-trivial = at least 2 pages')
+        docs.quiet()
+        for _ in range(run.n(120, 4000)):
+            line, meta, tags = wide_trace.conserve_case(run.rng)
+            if line is None:
+                sec2.tags['render-error (C02)'] += 1
+                continue
+            sec2.add(line, 'ok', meta=meta, nontrivial=len(meta['pages']) >= 2, tags=tags)
+
+    def classify(self, d):
+        if d['section'] == 'wide-traces':
+            return wide_trace.explain(d['meta'], d['model'])
+        return None
 
     def judge(self, d):
+        if d['section'] == 'wide-traces':
+            return wide_trace.conserve_violation(d['meta'], d['model'])
         doc = pm_corr.doc_from_json(d['meta']['doc'])
         return pm_corr.conservation_violation(doc, d['impl'])
 
@@ -46,7 +68,9 @@ class C01(PropCheck):
         return found
 
     def finding_replays(self):
-        return {'fixed-height-forgets-overflow': fixed_height_drops}
+        return {'fixed-height-forgets-overflow': fixed_height_drops,
+                'out-of-flow-lost-at-document-end': float_lost_at_end,
+                'flex-grid-fragmentation-loses-content': grid_item_lost}
 
     def replay(self, data):
         inp = data.get('input', {})
@@ -54,6 +78,10 @@ class C01(PropCheck):
         if 'doc' in meta:
             doc = pm_corr.doc_from_json(meta['doc'])
             return pm_corr.conservation_violation(doc, pm_corr.real_line(doc))
+        if 'html' in meta and 'groups' in meta:
+            from harness import widegen
+            pages = widegen.page_words(docs.render(meta['html']))
+            return wide_trace.conserve_violation({'groups': meta['groups'], 'pages': pages}, 'bad')
         return None
 
 
@@ -64,6 +92,28 @@ def fixed_height_drops():
             '<div style="height:50px">a<br>b<br>c<br>d<br>e<br>f<br>g<br>h</div><p>tail</p>')
     texts = [t.strip() for page in docs.page_texts(docs.render(html)) for t in page if t.strip()]
     return not all(w in texts for w in 'abcdefgh')
+
+
+def _words_lost(html, count):
+    import re
+    docs.quiet()
+    texts = ' '.join(t for page in docs.page_texts(docs.render(html)) for t in page)
+    seen = {int(m) for m in re.findall(r'w(\d+)', texts)}
+    return any(i not in seen for i in range(1, count + 1))
+
+
+def float_lost_at_end():
+    return _words_lost(
+        '<style>@page{size:240px 13px;margin:2px}html,body{margin:0}body{font-size:6px;line-height:6px}p{margin:0}'
+        '</style><div style="float:right;width:50px"><p style="border:2px solid">w1 w2 w3 w4 w5 w6 w7 w8</p></div>'
+        '<p style="padding:1px">w9 w10 w11 w12 w13</p>', 13)
+
+
+def grid_item_lost():
+    return _words_lost(
+        '<style>@page{size:160px 9px;margin:2px}html,body{margin:0}body{font-size:4px;line-height:4px}p{margin:0}'
+        '</style><div style="display:grid;grid-template-columns:1fr 1fr"><div><p style="padding:2px">w1</p></div>'
+        '<div><p>w2</p></div></div>', 2)
 
 
 PROP = C01()
